@@ -28,11 +28,12 @@ func (p *protocolV1) Version() uint8 {
 }
 
 func (p *protocolV1) UnpackBytes(ctx *protocol.Context, bs []byte) (packet *protocol.Packet, err error) {
-	ctx.BeginUnpack()
-	header := headerFromContext(ctx)
+	// a one-shot decode uses its own pooled header and leaves the context
+	// alone: the context may hold the header of a streaming decode that is
+	// still waiting for data
+	header := defaultHeaderPool.Get()
 
 	defer func() {
-		ctx.SetHeader(nil)
 		defaultHeaderPool.Put(header)
 	}()
 
@@ -70,8 +71,6 @@ func (p *protocolV1) UnpackBytes(ctx *protocol.Context, bs []byte) (packet *prot
 			return
 		}
 	}
-
-	ctx.EndUnpack()
 
 	return
 }
